@@ -1,1 +1,677 @@
-fn main(){ let f = syn::parse_file("fn a(){}").unwrap(); println!("{}", f.items.len()); }
+//! vx — mechanical extractor: splices Verus contract text into function bodies that are copied
+//! byte-for-byte from /repo.
+//!
+//! usage: vx --template T --repo /repo --out OUT.rs --map OUT.map.json [--mode N|P] [--vacuity]
+//!
+//! Template language (line oriented; every directive starts with `//@`):
+//!   //@include <path relative to the template>       raw inclusion
+//!   //@ifmode <M> ... //@endif                        keep the lines only in mode M
+//!   //@extract file=<repo-rel> fn=<name> [impl=<trait or self type>] id=<id> [tags=C01,C02] [body_tags=..]
+//!       //@sig                  Verus-side signature (R1); everything up to the body
+//!       //@source_sig <tokens>  optional: expected token string of the source signature
+//!       //@spec [tags=..]       requires / ensures / decreases
+//!       //@loop <n> [tags=..]   loop contract of the n-th loop (pre-order)
+//!       //@at entry | after_let <name> [occ] | before_call <name> <occ> | after_call <name> <occ>
+//!             | before_loop <n> | after_loop <n> | loop_end <n>      ghost text placed at an anchor
+//!   //@end
+//!
+//! Rewrites applied to the body (everything else is verbatim; see DESIGN.md 2.1):
+//!   R2 assert!/assert_eq!/debug_assert!/debug_assert_eq! -> verif_assert(..)/verif_debug_assert(..)
+//!   R3 X.iter_mut().for_each(|x| *x -= E)                -> verif_sub_assign_all(X, E)
+//!   R4 s![..e]                                           -> verif_slice_to(e)
+//!   R7 tail expression carrying an `after_call` anchor   -> { let __r = <tail>; <ghost>; __r }
+//! Exit codes: 0 ok, 3 lost anchor / item not found, 4 usage or internal error.
+
+use proc_macro2::Span;
+use serde_json::json;
+use std::collections::BTreeMap;
+use std::fs;
+use std::path::{Path, PathBuf};
+use std::process::exit;
+use syn::spanned::Spanned;
+use syn::visit::Visit;
+
+fn die(code: i32, msg: String) -> ! {
+    eprintln!("vx: {}", msg);
+    exit(code)
+}
+
+#[derive(Debug, Clone)]
+struct Section {
+    kind: String, // sig | spec | loop | at
+    args: Vec<String>,
+    tags: Option<String>,
+    text: String,
+}
+
+#[derive(Debug, Clone, Default)]
+struct ExtractReq {
+    attrs: BTreeMap<String, String>,
+    sections: Vec<Section>,
+    source_sig: Option<String>,
+    tline: usize,
+}
+
+enum TItem {
+    Raw(String, String, usize), // text, origin file, first line
+    Extract(ExtractReq),
+}
+
+fn parse_kv(s: &str) -> (Vec<String>, BTreeMap<String, String>) {
+    let mut pos = vec![];
+    let mut kv = BTreeMap::new();
+    for w in s.split_whitespace() {
+        if let Some(i) = w.find('=') {
+            kv.insert(w[..i].to_string(), w[i + 1..].to_string());
+        } else {
+            pos.push(w.to_string());
+        }
+    }
+    (pos, kv)
+}
+
+fn load_template(path: &Path, mode: &str, items: &mut Vec<TItem>) {
+    let text = fs::read_to_string(path)
+        .unwrap_or_else(|e| die(4, format!("cannot read template {}: {}", path.display(), e)));
+    let dir = path.parent().unwrap_or(Path::new(".")).to_path_buf();
+    let mut raw = String::new();
+    let mut raw_start = 1usize;
+    let mut cur: Option<ExtractReq> = None;
+    let mut keep = true;
+    let pname = path.display().to_string();
+    for (ln0, line) in text.lines().enumerate() {
+        let ln = ln0 + 1;
+        let t = line.trim_start();
+        if let Some(rest) = t.strip_prefix("//@") {
+            let rest = rest.trim();
+            let (word, tail) = match rest.find(char::is_whitespace) {
+                Some(i) => (&rest[..i], rest[i..].trim()),
+                None => (rest, ""),
+            };
+            match word {
+                "ifmode" => {
+                    keep = tail.split(',').any(|m| m.trim() == mode);
+                    continue;
+                }
+                "endif" => {
+                    keep = true;
+                    continue;
+                }
+                _ => {}
+            }
+            if !keep {
+                continue;
+            }
+            match word {
+                "include" => {
+                    if cur.is_some() {
+                        die(4, format!("{}:{}: include inside extract", pname, ln));
+                    }
+                    if !raw.is_empty() {
+                        items.push(TItem::Raw(std::mem::take(&mut raw), pname.clone(), raw_start));
+                    }
+                    load_template(&dir.join(tail), mode, items);
+                    raw_start = ln + 1;
+                }
+                "extract" => {
+                    if !raw.is_empty() {
+                        items.push(TItem::Raw(std::mem::take(&mut raw), pname.clone(), raw_start));
+                    }
+                    let (_p, kv) = parse_kv(tail);
+                    cur = Some(ExtractReq { attrs: kv, sections: vec![], source_sig: None, tline: ln });
+                }
+                "end" => {
+                    let r = cur.take().unwrap_or_else(|| die(4, format!("{}:{}: end without extract", pname, ln)));
+                    items.push(TItem::Extract(r));
+                    raw_start = ln + 1;
+                }
+                "source_sig" => {
+                    cur.as_mut().unwrap_or_else(|| die(4, format!("{}:{}: stray source_sig", pname, ln))).source_sig =
+                        Some(tail.to_string());
+                }
+                "sig" | "spec" | "loop" | "at" => {
+                    let c = cur.as_mut().unwrap_or_else(|| die(4, format!("{}:{}: stray section", pname, ln)));
+                    let (pos, kv) = parse_kv(tail);
+                    c.sections.push(Section { kind: word.to_string(), args: pos, tags: kv.get("tags").cloned(), text: String::new() });
+                }
+                _ => die(4, format!("{}:{}: unknown directive {}", pname, ln, word)),
+            }
+            continue;
+        }
+        if !keep {
+            continue;
+        }
+        if let Some(c) = cur.as_mut() {
+            match c.sections.last_mut() {
+                Some(s) => {
+                    s.text.push_str(line);
+                    s.text.push('\n');
+                }
+                None => {
+                    if !line.trim().is_empty() {
+                        die(4, format!("{}:{}: text before first section in extract", pname, ln));
+                    }
+                }
+            }
+        } else {
+            if raw.is_empty() {
+                raw_start = ln;
+            }
+            raw.push_str(line);
+            raw.push('\n');
+        }
+    }
+    if cur.is_some() {
+        die(4, format!("{}: unterminated extract", pname));
+    }
+    if !raw.is_empty() {
+        items.push(TItem::Raw(raw, pname, raw_start));
+    }
+}
+
+// ---------------------------------------------------------------------------------------------
+
+struct SrcFile {
+    text: String,
+    line_starts: Vec<usize>,
+    ast: syn::File,
+}
+
+impl SrcFile {
+    fn load(p: &Path) -> SrcFile {
+        let text = fs::read_to_string(p).unwrap_or_else(|e| die(3, format!("cannot read {}: {}", p.display(), e)));
+        let ast = syn::parse_file(&text).unwrap_or_else(|e| die(3, format!("cannot parse {}: {}", p.display(), e)));
+        let mut line_starts = vec![0usize];
+        for (i, b) in text.bytes().enumerate() {
+            if b == b'\n' {
+                line_starts.push(i + 1);
+            }
+        }
+        SrcFile { text, line_starts, ast }
+    }
+    fn off(&self, lc: proc_macro2::LineColumn) -> usize {
+        // column counts chars, not bytes
+        let ls = self.line_starts[lc.line - 1];
+        let line = &self.text[ls..];
+        let mut n = 0;
+        for (bi, _c) in line.char_indices() {
+            if n == lc.column {
+                return ls + bi;
+            }
+            n += 1;
+        }
+        ls + line.len()
+    }
+    fn range(&self, s: Span) -> (usize, usize) {
+        (self.off(s.start()), self.off(s.end()))
+    }
+    fn line_of(&self, off: usize) -> usize {
+        match self.line_starts.binary_search(&off) {
+            Ok(i) => i + 1,
+            Err(i) => i,
+        }
+    }
+}
+
+struct Found<'a> {
+    sig: &'a syn::Signature,
+    block: &'a syn::Block,
+}
+
+fn type_last_ident(t: &syn::Type) -> String {
+    match t {
+        syn::Type::Path(p) => p.path.segments.last().map(|s| s.ident.to_string()).unwrap_or_default(),
+        syn::Type::Reference(r) => type_last_ident(&r.elem),
+        _ => String::new(),
+    }
+}
+
+fn find_fn<'a>(items: &'a [syn::Item], name: &str, imp: Option<&str>, out: &mut Vec<Found<'a>>) {
+    for it in items {
+        match it {
+            syn::Item::Fn(f) => {
+                if imp.is_none() && f.sig.ident == name {
+                    out.push(Found { sig: &f.sig, block: &f.block });
+                }
+            }
+            syn::Item::Impl(im) => {
+                let tr = im.trait_.as_ref().and_then(|(_, p, _)| p.segments.last()).map(|s| s.ident.to_string());
+                let ty = type_last_ident(&im.self_ty);
+                let ok = match imp {
+                    None => false,
+                    Some(want) => {
+                        // "Trait", "Type" or "Trait for Type" written as Trait:Type
+                        if let Some((a, b)) = want.split_once(':') {
+                            tr.as_deref() == Some(a) && ty == b
+                        } else {
+                            tr.as_deref() == Some(want) || (tr.is_none() && ty == want)
+                        }
+                    }
+                };
+                if ok {
+                    for ii in &im.items {
+                        if let syn::ImplItem::Fn(f) = ii {
+                            if f.sig.ident == name {
+                                out.push(Found { sig: &f.sig, block: &f.block });
+                            }
+                        }
+                    }
+                }
+            }
+            syn::Item::Trait(t) => {
+                if imp == Some(&t.ident.to_string()) {
+                    for ti in &t.items {
+                        if let syn::TraitItem::Fn(f) = ti {
+                            if f.sig.ident == name {
+                                if let Some(b) = &f.default {
+                                    out.push(Found { sig: &f.sig, block: b });
+                                }
+                            }
+                        }
+                    }
+                }
+            }
+            syn::Item::Mod(m) => {
+                if let Some((_, its)) = &m.content {
+                    find_fn(its, name, imp, out);
+                }
+            }
+            _ => {}
+        }
+    }
+}
+
+#[derive(Debug, Clone)]
+struct StmtInfo {
+    start: usize,
+    end: usize,
+    is_tail_value: bool,
+}
+
+#[derive(Default)]
+struct BodyScan {
+    // loops in pre-order: (open brace offset of the body block, offset of its closing brace, stmt start, stmt end)
+    loops: Vec<(usize, usize, usize, usize)>,
+    // calls by name: (enclosing stmt)
+    calls: BTreeMap<String, Vec<StmtInfo>>,
+    lets: BTreeMap<String, Vec<StmtInfo>>,
+    stmt_stack: Vec<StmtInfo>,
+    // macro / pattern rewrites: (start, end, replacement, rule)
+    rewrites: Vec<(usize, usize, String, String)>,
+}
+
+struct Scanner<'a> {
+    src: &'a SrcFile,
+    scan: BodyScan,
+}
+
+fn pat_idents(p: &syn::Pat, out: &mut Vec<String>) {
+    match p {
+        syn::Pat::Ident(i) => out.push(i.ident.to_string()),
+        syn::Pat::Type(t) => pat_idents(&t.pat, out),
+        syn::Pat::Tuple(t) => t.elems.iter().for_each(|e| pat_idents(e, out)),
+        syn::Pat::Reference(r) => pat_idents(&r.pat, out),
+        syn::Pat::TupleStruct(t) => t.elems.iter().for_each(|e| pat_idents(e, out)),
+        syn::Pat::Paren(p) => pat_idents(&p.pat, out),
+        _ => {}
+    }
+}
+
+impl<'a> Scanner<'a> {
+    fn text(&self, s: Span) -> &str {
+        let (a, b) = self.src.range(s);
+        &self.src.text[a..b]
+    }
+    fn record_call(&mut self, name: String) {
+        if let Some(top) = self.scan.stmt_stack.last().cloned() {
+            self.scan.calls.entry(name).or_default().push(top);
+        }
+    }
+    fn rewrite_macro(&mut self, m: &syn::Macro, whole: Span) -> bool {
+        let name = m.path.segments.last().map(|s| s.ident.to_string()).unwrap_or_default();
+        let (a, b) = self.src.range(whole);
+        let args = || -> Option<Vec<syn::Expr>> {
+            m.parse_body_with(syn::punctuated::Punctuated::<syn::Expr, syn::Token![,]>::parse_terminated)
+                .ok()
+                .map(|p| p.into_iter().collect())
+        };
+        match name.as_str() {
+            "assert" | "debug_assert" => {
+                let ar = args().unwrap_or_else(|| die(3, format!("cannot parse {}! arguments", name)));
+                let c = self.text(ar[0].span()).to_string();
+                let f = if name == "assert" { "verif_assert" } else { "verif_debug_assert" };
+                self.scan.rewrites.push((a, b, format!("{}({})", f, c), "R2".into()));
+                true
+            }
+            "assert_eq" | "debug_assert_eq" | "assert_ne" | "debug_assert_ne" => {
+                let ar = args().unwrap_or_else(|| die(3, format!("cannot parse {}! arguments", name)));
+                let l = self.text(ar[0].span()).to_string();
+                let r = self.text(ar[1].span()).to_string();
+                let f = if name.starts_with("assert") { "verif_assert" } else { "verif_debug_assert" };
+                let op = if name.ends_with("_eq") { "==" } else { "!=" };
+                self.scan.rewrites.push((a, b, format!("{}(({}) {} ({}))", f, l, op, r), "R2".into()));
+                true
+            }
+            "s" => {
+                // only the form s![..e]
+                if let Ok(syn::Expr::Range(r)) = m.parse_body::<syn::Expr>() {
+                    if r.start.is_none() && matches!(r.limits, syn::RangeLimits::HalfOpen(_)) {
+                        if let Some(e) = &r.end {
+                            let et = self.text(e.span()).to_string();
+                            self.scan.rewrites.push((a, b, format!("verif_slice_to({})", et), "R4".into()));
+                            return true;
+                        }
+                    }
+                }
+                false
+            }
+            _ => false,
+        }
+    }
+}
+
+impl<'a, 'ast> Visit<'ast> for Scanner<'a> {
+    fn visit_item(&mut self, _i: &'ast syn::Item) {
+        // nested items are not part of this body
+    }
+    fn visit_block(&mut self, b: &'ast syn::Block) {
+        let n = b.stmts.len();
+        for (k, st) in b.stmts.iter().enumerate() {
+            let (s, e) = self.src.range(st.span());
+            let is_tail_value = k + 1 == n && matches!(st, syn::Stmt::Expr(_, None));
+            self.scan.stmt_stack.push(StmtInfo { start: s, end: e, is_tail_value });
+            if let syn::Stmt::Local(l) = st {
+                let mut ids = vec![];
+                pat_idents(&l.pat, &mut ids);
+                let info = self.scan.stmt_stack.last().cloned().unwrap();
+                for id in ids {
+                    self.scan.lets.entry(id).or_default().push(info.clone());
+                }
+            }
+            self.visit_stmt(st);
+            self.scan.stmt_stack.pop();
+        }
+    }
+    fn visit_stmt_macro(&mut self, m: &'ast syn::StmtMacro) {
+        // keep the trailing semicolon out of the rewritten range
+        let sp = m.mac.path.span().join(m.mac.delimiter.span().close()).unwrap_or(m.mac.span());
+        let _ = sp;
+        let (a, _) = self.src.range(m.mac.path.span());
+        let (_, b) = self.src.range(m.mac.delimiter.span().close());
+        let n0 = self.scan.rewrites.len();
+        if self.rewrite_macro(&m.mac, m.mac.span()) {
+            let r = &mut self.scan.rewrites[n0];
+            r.0 = a;
+            r.1 = b;
+        }
+    }
+    fn visit_expr_macro(&mut self, m: &'ast syn::ExprMacro) {
+        let (a, _) = self.src.range(m.mac.path.span());
+        let (_, b) = self.src.range(m.mac.delimiter.span().close());
+        let n0 = self.scan.rewrites.len();
+        if self.rewrite_macro(&m.mac, m.mac.span()) {
+            let r = &mut self.scan.rewrites[n0];
+            r.0 = a;
+            r.1 = b;
+        }
+    }
+    fn visit_expr_loop(&mut self, l: &'ast syn::ExprLoop) {
+        let (s, e) = self.src.range(l.span());
+        let (bo, _) = self.src.range(l.body.brace_token.span.open());
+        let (bc, _) = self.src.range(l.body.brace_token.span.close());
+        self.scan.loops.push((bo, bc, s, e));
+        syn::visit::visit_expr_loop(self, l);
+    }
+    fn visit_expr_while(&mut self, l: &'ast syn::ExprWhile) {
+        let (s, e) = self.src.range(l.span());
+        let (bo, _) = self.src.range(l.body.brace_token.span.open());
+        let (bc, _) = self.src.range(l.body.brace_token.span.close());
+        self.scan.loops.push((bo, bc, s, e));
+        syn::visit::visit_expr_while(self, l);
+    }
+    fn visit_expr_for_loop(&mut self, l: &'ast syn::ExprForLoop) {
+        let (s, e) = self.src.range(l.span());
+        let (bo, _) = self.src.range(l.body.brace_token.span.open());
+        let (bc, _) = self.src.range(l.body.brace_token.span.close());
+        self.scan.loops.push((bo, bc, s, e));
+        syn::visit::visit_expr_for_loop(self, l);
+    }
+    fn visit_expr_call(&mut self, c: &'ast syn::ExprCall) {
+        if let syn::Expr::Path(p) = &*c.func {
+            if let Some(seg) = p.path.segments.last() {
+                self.record_call(seg.ident.to_string());
+            }
+        }
+        syn::visit::visit_expr_call(self, c);
+    }
+    fn visit_expr_method_call(&mut self, c: &'ast syn::ExprMethodCall) {
+        // R3: X.iter_mut().for_each(|x| *x -= E)
+        if c.method == "for_each" && c.args.len() == 1 {
+            if let syn::Expr::MethodCall(inner) = &*c.receiver {
+                if inner.method == "iter_mut" && inner.args.is_empty() {
+                    if let syn::Expr::Closure(cl) = &c.args[0] {
+                        if cl.inputs.len() == 1 {
+                            let mut ids = vec![];
+                            pat_idents(&cl.inputs[0], &mut ids);
+                            if let (Some(x), syn::Expr::Binary(bin)) = (ids.first(), &*cl.body) {
+                                if let (syn::BinOp::SubAssign(_), syn::Expr::Unary(u)) = (&bin.op, &*bin.left) {
+                                    if let (syn::UnOp::Deref(_), syn::Expr::Path(p)) = (&u.op, &*u.expr) {
+                                        if p.path.is_ident(x) {
+                                            let (a, b) = self.src.range(c.span());
+                                            let xs = self.text(inner.receiver.span()).to_string();
+                                            let es = self.text(bin.right.span()).to_string();
+                                            self.scan.rewrites.push((a, b, format!("verif_sub_assign_all({}, {})", xs.trim(), es), "R3".into()));
+                                            self.record_call("verif_sub_assign_all".into());
+                                            return;
+                                        }
+                                    }
+                                }
+                            }
+                        }
+                    }
+                }
+            }
+        }
+        self.record_call(c.method.to_string());
+        syn::visit::visit_expr_method_call(self, c);
+    }
+}
+
+fn norm_tokens(s: &str) -> String {
+    s.split_whitespace().collect::<Vec<_>>().join(" ")
+}
+
+struct OutBuf {
+    text: String,
+    line: usize,
+    map: Vec<serde_json::Value>,
+}
+
+impl OutBuf {
+    fn push(&mut self, t: &str, meta: serde_json::Value) {
+        if t.is_empty() {
+            return;
+        }
+        let start = self.line;
+        let nl = t.matches('\n').count();
+        self.text.push_str(t);
+        self.line += nl;
+        // a piece that does not end in a newline shares its last line with the next piece
+        let end = if t.ends_with('\n') { self.line - 1 } else { self.line };
+        let mut m = meta;
+        m["out_start"] = json!(start);
+        m["out_end"] = json!(end.max(start));
+        self.map.push(m);
+    }
+}
+
+fn main() {
+    let args: Vec<String> = std::env::args().collect();
+    let mut template = None;
+    let mut repo = PathBuf::from("/repo");
+    let mut out = None;
+    let mut mapf = None;
+    let mut mode = "N".to_string();
+    let mut vacuity = false;
+    let mut i = 1;
+    while i < args.len() {
+        match args[i].as_str() {
+            "--template" => { template = Some(PathBuf::from(&args[i + 1])); i += 2; }
+            "--repo" => { repo = PathBuf::from(&args[i + 1]); i += 2; }
+            "--out" => { out = Some(PathBuf::from(&args[i + 1])); i += 2; }
+            "--map" => { mapf = Some(PathBuf::from(&args[i + 1])); i += 2; }
+            "--mode" => { mode = args[i + 1].clone(); i += 2; }
+            "--vacuity" => { vacuity = true; i += 1; }
+            a => die(4, format!("unknown argument {}", a)),
+        }
+    }
+    let template = template.unwrap_or_else(|| die(4, "missing --template".into()));
+    let out = out.unwrap_or_else(|| die(4, "missing --out".into()));
+    let mapf = mapf.unwrap_or_else(|| die(4, "missing --map".into()));
+
+    let mut items = vec![];
+    load_template(&template, &mode, &mut items);
+
+    let mut files: BTreeMap<String, SrcFile> = BTreeMap::new();
+    for it in &items {
+        if let TItem::Extract(r) = it {
+            let f = r.attrs.get("file").unwrap_or_else(|| die(4, "extract without file=".into())).clone();
+            if !files.contains_key(&f) {
+                files.insert(f.clone(), SrcFile::load(&repo.join(&f)));
+            }
+        }
+    }
+
+    let mut ob = OutBuf { text: String::new(), line: 1, map: vec![] };
+    let mut fns = vec![];
+    for it in &items {
+        match it {
+            TItem::Raw(t, origin, l0) => {
+                ob.push(t, json!({"kind": "shim", "origin": origin, "origin_line": l0}));
+            }
+            TItem::Extract(r) => {
+                let file = r.attrs.get("file").unwrap();
+                let name = r.attrs.get("fn").unwrap_or_else(|| die(4, "extract without fn=".into()));
+                let id = r.attrs.get("id").cloned().unwrap_or(name.clone());
+                let tags = r.attrs.get("tags").cloned().unwrap_or_default();
+                let body_tags = r.attrs.get("body_tags").cloned().unwrap_or(tags.clone());
+                let src = &files[file];
+                let mut found = vec![];
+                find_fn(&src.ast.items, name, r.attrs.get("impl").map(|s| s.as_str()), &mut found);
+                if found.len() != 1 {
+                    die(3, format!("lost-anchor: {} candidates for fn {} (impl {:?}) in {} (template line {})",
+                        found.len(), name, r.attrs.get("impl"), file, r.tline));
+                }
+                let f = &found[0];
+                let (sig_a, sig_b) = src.range(f.sig.span());
+                let sig_text = norm_tokens(&src.text[sig_a..sig_b]);
+                if let Some(want) = &r.source_sig {
+                    if norm_tokens(want) != sig_text {
+                        die(3, format!("lost-anchor: signature of {} changed:\n  expected: {}\n  found:    {}", name, norm_tokens(want), sig_text));
+                    }
+                }
+                let (bo, _) = src.range(f.block.brace_token.span.open());
+                let (bc, bc_end) = src.range(f.block.brace_token.span.close());
+                let mut sc = Scanner { src, scan: BodyScan::default() };
+                sc.visit_block(f.block);
+                let scan = sc.scan;
+
+                // edits: (offset_start, offset_end, seq, text, meta)
+                let mut edits: Vec<(usize, usize, usize, String, serde_json::Value)> = vec![];
+                let mut seq = 0usize;
+                for (a, b, t, rule) in &scan.rewrites {
+                    edits.push((*a, *b, seq, t.clone(), json!({"kind": "rewrite", "rule": rule, "fn": id, "tags": body_tags, "src_file": file, "src_line": src.line_of(*a)})));
+                    seq += 1;
+                }
+                let mut sig_sec = None;
+                let mut spec_secs = vec![];
+                for s in &r.sections {
+                    let stags = s.tags.clone().unwrap_or(tags.clone());
+                    match s.kind.as_str() {
+                        "sig" => sig_sec = Some(s.clone()),
+                        "spec" => spec_secs.push(s.clone()),
+                        "loop" => {
+                            let n: usize = s.args.get(0).and_then(|x| x.parse().ok()).unwrap_or_else(|| die(4, format!("bad loop ordinal in {}", id)));
+                            let lp = scan.loops.get(n).unwrap_or_else(|| die(3, format!("lost-anchor: loop {} of {} not found ({} loops)", n, id, scan.loops.len())));
+                            edits.push((lp.0, lp.0, seq, format!("\n{}", s.text), json!({"kind": "loop", "label": format!("loop {}", n), "fn": id, "tags": stags})));
+                            seq += 1;
+                        }
+                        "at" => {
+                            let what = s.args.get(0).map(|x| x.as_str()).unwrap_or("");
+                            let label = format!("at {}", s.args.join(" "));
+                            let meta = json!({"kind": "ghost", "label": label, "fn": id, "tags": stags});
+                            match what {
+                                "entry" => { edits.push((bo + 1, bo + 1, seq, format!("\n{}", s.text), meta)); }
+                                "after_let" => {
+                                    let nm = s.args.get(1).unwrap_or_else(|| die(4, "after_let needs a name".into()));
+                                    let occ: usize = s.args.get(2).and_then(|x| x.parse().ok()).unwrap_or(0);
+                                    let st = scan.lets.get(nm).and_then(|v| v.get(occ)).unwrap_or_else(|| die(3, format!("lost-anchor: let {} #{} not found in {}", nm, occ, id)));
+                                    edits.push((st.end, st.end, seq, format!("\n{}", s.text), meta));
+                                }
+                                "before_call" | "after_call" => {
+                                    let nm = s.args.get(1).unwrap_or_else(|| die(4, "call anchor needs a name".into()));
+                                    let occ: usize = s.args.get(2).and_then(|x| x.parse().ok()).unwrap_or(0);
+                                    let st = scan.calls.get(nm).and_then(|v| v.get(occ)).unwrap_or_else(|| die(3, format!("lost-anchor: call {} #{} not found in {}", nm, occ, id)));
+                                    if what == "before_call" {
+                                        edits.push((st.start, st.start, seq, format!("{}\n", s.text), meta));
+                                    } else if st.is_tail_value {
+                                        // R7
+                                        edits.push((st.start, st.start, seq, "let __r = ".to_string(), json!({"kind": "rewrite", "rule": "R7", "fn": id, "tags": body_tags})));
+                                        seq += 1;
+                                        edits.push((st.end, st.end, seq, format!(";\n{}\n__r", s.text), meta));
+                                    } else {
+                                        edits.push((st.end, st.end, seq, format!("\n{}", s.text), meta));
+                                    }
+                                }
+                                "before_loop" | "after_loop" | "loop_end" => {
+                                    let n: usize = s.args.get(1).and_then(|x| x.parse().ok()).unwrap_or_else(|| die(4, "loop anchor needs ordinal".into()));
+                                    let lp = scan.loops.get(n).unwrap_or_else(|| die(3, format!("lost-anchor: loop {} of {} not found", n, id)));
+                                    let at = match what { "before_loop" => lp.2, "after_loop" => lp.3, _ => lp.1 };
+                                    edits.push((at, at, seq, format!("\n{}\n", s.text), meta));
+                                }
+                                _ => die(4, format!("unknown anchor {} in {}", what, id)),
+                            }
+                            seq += 1;
+                        }
+                        _ => {}
+                    }
+                }
+                if vacuity {
+                    edits.push((bo + 1, bo + 1, seq, "\nproof { assert(false); } // VACUITY PROBE\n".to_string(), json!({"kind": "vacuity", "fn": id, "tags": ""})));
+                }
+                edits.sort_by(|x, y| (x.0, x.2).cmp(&(y.0, y.2)));
+                // emit
+                let sig = sig_sec.unwrap_or_else(|| die(4, format!("extract {} without //@sig", id)));
+                let fn_out_start = ob.line;
+                ob.push(&sig.text, json!({"kind": "sig", "fn": id, "tags": tags}));
+                for s in &spec_secs {
+                    ob.push(&s.text, json!({"kind": "spec", "fn": id, "tags": s.tags.clone().unwrap_or(tags.clone())}));
+                }
+                let mut pos = bo;
+                for (a, b, _s, t, meta) in &edits {
+                    if *a < pos || *b > bc_end {
+                        die(3, format!("overlapping or out-of-body edit in {} at byte {}", id, a));
+                    }
+                    ob.push(&src.text[pos..*a], json!({"kind": "body", "fn": id, "tags": body_tags, "src_file": file, "src_line": src.line_of(pos)}));
+                    ob.push(t, meta.clone());
+                    pos = *b;
+                }
+                ob.push(&src.text[pos..bc_end], json!({"kind": "body", "fn": id, "tags": body_tags, "src_file": file, "src_line": src.line_of(pos)}));
+                ob.push("\n", json!({"kind": "sep"}));
+                let _ = bc;
+                fns.push(json!({
+                    "id": id, "fn": name, "file": file, "tags": tags,
+                    "src_line_start": src.line_of(sig_a), "src_line_end": src.line_of(bc_end),
+                    "source_sig": sig_text,
+                    "body": &src.text[bo..bc_end],
+                    "out_start": fn_out_start, "out_end": ob.line,
+                    "loops": scan.loops.len(),
+                    "rewrites": scan.rewrites.iter().map(|(a, _b, t, rule)| json!({"rule": rule, "src_line": src.line_of(*a), "to": t})).collect::<Vec<_>>(),
+                }));
+            }
+        }
+    }
+    fs::write(&out, &ob.text).unwrap_or_else(|e| die(4, format!("cannot write {}: {}", out.display(), e)));
+    let m = json!({"template": template.display().to_string(), "mode": mode, "vacuity": vacuity, "functions": fns, "pieces": ob.map});
+    fs::write(&mapf, serde_json::to_string_pretty(&m).unwrap()).unwrap_or_else(|e| die(4, format!("cannot write map: {}", e)));
+}
